@@ -43,8 +43,8 @@ def main():
         path = os.path.join(a.out, name + ".lean")
         try:
             text = fn(a.repo)
-        except ExtractError as e:
-            status[name] = {"ok": False, "error": str(e)}
+        except Exception as e:  # ExtractError, or a bug in one generator: never poison the others
+            status[name] = {"ok": False, "error": f"{type(e).__name__}: {e}"}
             rc = 2
             # leave a file that cannot compile, so no stale model survives
             with open(path, "w") as f:
